@@ -41,6 +41,9 @@ CONSTANTS N,        \* heights 1..N; the store starts with header 1
           MaxG,     \* gossip deliveries
           MaxH,     \* Head() calls
           MaxReq,   \* headers per range answer (partial answers: 1..MaxReq)
+          ReadOrder, \* "pend_store": localHead() reads the pending cache first and the store head second (the code);
+                    \*  "store_pend": the other way round (refuted: a caller between its two reads while the sync loop
+                    \*  moves the pending head into the store returns the old store head)
           Fix       \* "max": localHead() is the higher of the pending head and the store head (the code since the
                     \*        repair of finding D26); "none": the pending head whenever the cache is not empty (the
                     \*        code before); "recheck": as "none", but setLocalHead re-reads the store head right
@@ -58,7 +61,7 @@ Add(p, h) == IF p # {} /\ Max(p) >= h THEN p ELSE p \cup {h}
 \* the first range: the maximal run starting at the lowest cached height
 FirstRun(p) == LET m == Min(p) IN {x \in p : \A y \in m..x : y \in p}
 
-Idle == [pc |-> "idle", h |-> 0]
+Idle == [pc |-> "idle", h |-> 0, r |-> 0]
 LIdle == [pc |-> "idle", from |-> 0, to |-> 0, hs |-> {}, gapTo |-> 0]
 
 Init == /\ wrap = 1 /\ pend = {} /\ trig = FALSE
@@ -73,13 +76,13 @@ CasTo(hs) ==  \* syncStore.Append's loop as one linearised step; hs a contiguous
 CasErr(hs) == LET above == {x \in hs : x > wrap} IN above # {} /\ Min(above) # wrap + 1
 
 (* ---- G: gossip delivery under incomingMu ---- *)
-MutexFree == g.pc = "idle" /\ hc.pc # "locked"
+MutexFree == g.pc = "idle" /\ hc.pc # "locked"  \* (the final localHead() of Head() runs after the mutex is released: "read2" does not hold it)
 GStart == /\ ng < MaxG /\ MutexFree
           /\ \E h \in 2..N :
                /\ ng' = ng + 1
                /\ IF h <= LocalHead
                     THEN g' = Idle /\ UNCHANGED learned       \* known: refused
-                    ELSE g' = [pc |-> "enter", h |-> h] /\ learned' = IF h > learned THEN h ELSE learned
+                    ELSE g' = [pc |-> "enter", h |-> h, r |-> 0] /\ learned' = IF h > learned THEN h ELSE learned
           /\ UNCHANGED <<wrap, pend, trig, hc, l, nh, lastRet, retBad, syncErr>>
 GEnter == /\ g.pc = "enter" /\ g' = [g EXCEPT !.pc = "cas"]
           /\ UNCHANGED <<wrap, pend, trig, hc, l, ng, nh, lastRet, retBad, syncErr, learned>>
@@ -100,7 +103,7 @@ HStart == /\ nh < MaxH /\ hc.pc = "idle" /\ nh' = nh + 1
              \/ \* not recent: the trusted peers answer with some height
                 \E a \in 1..N :
                   IF a <= LocalHead THEN Ret(LocalHead) /\ hc' = Idle /\ UNCHANGED learned
-                  ELSE /\ hc' = [pc |-> "enter", h |-> a] /\ learned' = IF a > learned THEN a ELSE learned
+                  ELSE /\ hc' = [pc |-> "enter", h |-> a, r |-> 0] /\ learned' = IF a > learned THEN a ELSE learned
                        /\ UNCHANGED <<lastRet, retBad>>
           /\ UNCHANGED <<wrap, pend, trig, g, l, ng, syncErr>>
 HEnter == /\ hc.pc = "enter" /\ hc' = [hc EXCEPT !.pc = "cas"]
@@ -115,7 +118,18 @@ HPAdd == /\ hc.pc = "padd" /\ pend' = PAddTo(hc.h) /\ trig' = TRUE /\ hc' = [hc 
 \* Head(): incomingNetworkHead(netHead) under the mutex (the header is known by now), then localHead()
 HLock == /\ hc.pc = "lock" /\ g.pc = "idle" /\ hc' = [hc EXCEPT !.pc = "locked"]
          /\ UNCHANGED <<wrap, pend, trig, g, l, ng, nh, lastRet, retBad, syncErr, learned>>
-HRet == /\ hc.pc = "locked" /\ Ret(LocalHead) /\ hc' = Idle
+\* the final localHead() of Head(): two reads with a yield point (localHead.betweenReads) in between
+PendHead == IF pend = {} THEN 0 ELSE Max(pend)
+HRead1 == /\ hc.pc = "locked"
+          /\ hc' = [hc EXCEPT !.pc = "read2", !.r = IF ReadOrder = "pend_store" THEN PendHead ELSE wrap]
+          /\ UNCHANGED <<wrap, pend, trig, g, l, ng, nh, lastRet, retBad, syncErr, learned>>
+HRet == /\ hc.pc = "read2"
+        /\ LET v == IF ReadOrder = "pend_store"
+                      THEN (IF Fix = "max" THEN (IF hc.r # 0 /\ hc.r > wrap THEN hc.r ELSE wrap)
+                            ELSE (IF hc.r # 0 THEN hc.r ELSE wrap))
+                      ELSE (IF PendHead # 0 /\ PendHead > hc.r THEN PendHead ELSE hc.r)
+           IN Ret(v)
+        /\ hc' = Idle
         /\ UNCHANGED <<wrap, pend, trig, g, l, ng, nh, syncErr, learned>>
 
 (* ---- L: the sync loop ---- *)
@@ -155,16 +169,16 @@ LEnd == /\ l.pc = "end" /\ l' = LIdle
         /\ UNCHANGED <<wrap, pend, trig, g, hc, ng, nh, lastRet, retBad, syncErr, learned>>
 
 Next == \/ GStart \/ GEnter \/ GCas \/ GCheck \/ GPAdd
-        \/ HStart \/ HEnter \/ HCas \/ HCheck \/ HPAdd \/ HLock \/ HRet
+        \/ HStart \/ HEnter \/ HCas \/ HCheck \/ HPAdd \/ HLock \/ HRead1 \/ HRet
         \/ LTrig \/ LLoop \/ LGap \/ LApply \/ LRemove \/ LFinal \/ LEnd
 Fair == /\ WF_vars(GEnter \/ GCas \/ GCheck \/ GPAdd)
-        /\ WF_vars(HEnter \/ HCas \/ HCheck \/ HPAdd \/ HLock \/ HRet)
+        /\ WF_vars(HEnter \/ HCas \/ HCheck \/ HPAdd \/ HLock \/ HRead1 \/ HRet)
         /\ WF_vars(LTrig \/ LLoop \/ LGap \/ LApply \/ LRemove \/ LFinal \/ LEnd)
 Spec == Init /\ [][Next]_vars /\ Fair
 
 TypeOK == /\ wrap \in 1..N /\ pend \subseteq 2..N /\ trig \in BOOLEAN
           /\ g.pc \in {"idle", "enter", "cas", "check", "padd"}
-          /\ hc.pc \in {"idle", "enter", "cas", "check", "padd", "lock", "locked"}
+          /\ hc.pc \in {"idle", "enter", "cas", "check", "padd", "lock", "locked", "read2"}
           /\ l.pc \in {"idle", "loop", "gap", "apply", "remove", "final", "end"}
 \* C19
 HeadMonotone == ~retBad
